@@ -1,12 +1,20 @@
+/-
+Model driver: one operation per input line, one canonical result line per input.
+Each `Driver/<X>.lean` provides `step<X> : String → List String → Option String`
+(`none` = not my op); add the import and the entry in `steppers`.
+-/
 import Driver.Headers
 
 open Driver
+
+def steppers : List (String → List String → Option String) :=
+  [stepHeaders]
 
 def step (line : String) : String :=
   match (line.splitOn " ").filter (· ≠ "") with
   | [] => "bad-op"
   | op :: args =>
-    match stepHeaders op args with
+    match steppers.findSome? (fun f => f op args) with
     | some r => r
     | none => "bad-op"
 
